@@ -90,6 +90,12 @@ TableMakers == << <<SetV("t", 1, Arr(<<>>))>>,
                   <<SetV("t", 1, Arr(<<IntC(3), IntC(1), IntC(2)>>))>>,
                   <<SetV("t", 1, Arr(<<IntC(2), IntC(2), IntC(1), IntC(2)>>))>>,
                   <<SetV("t", 1, Arr(<<IntC(1), RealC(1, 1), IntC(2), RealC(3, 1)>>))>>,
+                  \* tied values under keys that are not in ascending order (ties keep their insertion order, whatever the keys)
+                  <<SetV("t", 1, C("CreateTable", <<>>, 0, 0, "", <<>>)),
+                    C("SetProperty", <<IntC(5), Rd("t", 1), IntC(2)>>, 0, 0, "", <<>>),
+                    C("SetProperty", <<IntC(5), Rd("t", 1), IntC(0)>>, 0, 0, "", <<>>),
+                    C("SetProperty", <<IntC(4), Rd("t", 1), IntC(3)>>, 0, 0, "", <<>>),
+                    C("SetProperty", <<IntC(5), Rd("t", 1), IntC(1)>>, 0, 0, "", <<>>)>>,
                   \* entries whose value is nil are entries like any other
                   <<SetV("t", 1, Arr(<<IntC(4), NilC, IntC(6), NilC>>))>>,
                   <<SetV("t", 1, C("CreateTable", <<>>, 0, 0, "", <<>>)),
